@@ -444,6 +444,59 @@ theorem m7_exec_serializable_other_keys (sched : List (List Cmd7)) (t : ConnTxn 
       obtain ⟨Kf, h1, h2, h3⟩ := hf f hm
       exact m7_indep f Kf h1 t.queue (t.watched.map (·.1)) h2 h3)
 
+/-- a READ-ONLY command of another client (any read of the reference model, on ANY keys — the
+    transaction's own keys included — and the keyspace-wide reads KEYS / DBSIZE / RANDOMKEY) leaves a
+    node as it is, hence is independent of every transaction -/
+theorem m7_indep_readonly (f : Cmd) (hro : Redis.isReadOnly f = true) (q : List Cmd7) (ws : List Nat) :
+    Indep backend7 NodeOk q ws (.data f) := by
+  have hnode : ∀ n, NodeOk n → (exec7 n (.data f)).1 = n := by
+    intro n hn
+    rw [exec7_data hn, Redis.exec_ro hro, hn.2]
+  refine ⟨?_, ?_, ?_⟩
+  · intro c _ n hn
+    show (exec7 (exec7 n (.data f)).1 c).1 = (exec7 (exec7 n c).1 (.data f)).1
+    rw [hnode n hn, hnode _ (exec7_ok hn c)]
+  · intro c _ n hn
+    show (exec7 (exec7 n (.data f)).1 c).2 = (exec7 n c).2
+    rw [hnode n hn]
+  · intro k _ n hn
+    show backend7.getReply (exec7 n (.data f)).1 k = backend7.getReply n k
+    rw [hnode n hn]
+
+/-- **EXEC over M7 is atomic with respect to readers and to clients on other keys**, under EVERY
+    schedule: every command served to the other clients while EXEC runs is either READ-ONLY (on any
+    keys) or names keys the transaction neither queues nor watches — the outcome of the transaction
+    (node, reply, watch verdict) is the serial one.  (What a concurrent READER sees in between is
+    the reader's matter: it may see half of the transaction — per-command atomicity only.) -/
+theorem m7_exec_serializable (sched : List (List Cmd7)) (t : ConnTxn Nat Cmd7 Rep7)
+    (n : Node) (hin : t.inTxn = true) (herr : t.errors = false) (hn : NodeOk n)
+    (hf : ∀ f ∈ sched.flatten,
+      (∃ d, f = .data d ∧ Redis.isReadOnly d = true) ∨
+      ∃ Kf, keysOf f = some Kf ∧
+        (∀ c ∈ t.queue, ∃ Kc, keysOf c = some Kc ∧ ∀ k ∈ Kf, k ∉ Kc) ∧
+        ∀ k ∈ t.watched.map (·.1), k ∉ Kf) :
+    ((step backend7 sched t n .exec).2.1, (step backend7 sched t n .exec).2.2) =
+      serialExec backend7 t n [] sched.flatten :=
+  exec_serializable_of_independent backend7 NodeOk (fun s c h => exec7_ok h c) sched t n hin herr hn
+    (fun f hm => by
+      rcases hf f hm with ⟨d, rfl, hro⟩ | ⟨Kf, h1, h2, h3⟩
+      · exact m7_indep_readonly d hro t.queue (t.watched.map (·.1))
+      · exact m7_indep f Kf h1 t.queue (t.watched.map (·.1)) h2 h3)
+
+/-- non-vacuity of the reader case: `MULTI; INCR 1; INCR 1; EXEC` with another client's `GET 1`,
+    `KEYS`, `DBSIZE` served between the replayed commands: the transaction's outcome is the serial one -/
+example :
+    let t : ConnTxn Nat Cmd7 Rep7 :=
+      { inTxn := true, queue := [.data (.incr 1), .data (.incr 1)], errors := false, watched := [(1, .data .nil)] }
+    let sched : List (List Cmd7) := [[], [.data (.get 1)], [.data .keys, .data .dbsize], [.data (.lrange 1 0 (-1))]]
+    (∀ f ∈ sched.flatten, ∃ d, f = .data d ∧ Redis.isReadOnly d = true) ∧
+    (step backend7 sched t (Node.init 1000) .exec).2.2 = .results [.data (.int 1), .data (.int 2)] := by
+  refine ⟨?_, by decide⟩
+  intro f hf
+  simp only [List.flatten_cons, List.flatten_nil, List.nil_append, List.append_nil, List.cons_append,
+    List.mem_cons, List.not_mem_nil, or_false] at hf
+  rcases hf with rfl | rfl | rfl | rfl <;> exact ⟨_, rfl, rfl⟩
+
 /-- non-vacuity: a transaction on keys 1 and 2 (key 1 watched; a list command, an expiry command)
     with the other clients running a two-key RENAME 3→4, an MSET on 5 and 6, and a ZADD on 7 between
     its store accesses: the hypotheses hold -/
